@@ -1,4 +1,7 @@
 ENGINES = [
+    {"name": "E3 algebraic value numbering", "path": "xfabsa/symeval.py, xfabsa/poly.py",
+     "serves_properties": ["C01", "C02", "C03", "C07", "C08", "C09", "C10", "C13", "C16"],
+     "kind_free_text": "abstract interpreter over the ast with rational-function normal forms (no solver, no sampling)"},
     {"name": "E0 tables", "path": "xfabsa/tables.py", "serves_properties": ["C04", "C05", "C06", "C12", "C15", "C16"],
      "kind_free_text": "literal-table extraction from the syntax tree by constant propagation"},
     {"name": "E6 table algebra", "path": "xfabsa/groupalg.py", "serves_properties": ["C04", "C05", "C06", "C12"],
@@ -6,6 +9,16 @@ ENGINES = [
 ]
 
 CHECKS = [
+    {"id": "C01", "engine": "E3 algebraic value numbering",
+     "technique": "abstract interpretation of the syntax tree into rational-function normal forms; equality with unique closed forms",
+     "text": "Every entry of form_a_mat, form_b_mat, cell_volume, cell_invert and sintl^2, in both modules, is canonicalised "
+             "(field of rational functions over the cell atoms with sqrt and sin^2+cos^2=1 relations) and compared with the "
+             "unique upper-triangular positive-diagonal factor of the metric / reciprocal metric and the Int. Tab. B reciprocal "
+             "cell. Normal-form equality is equality of real functions, so the metric clauses hold for every cell; "
+             "triangular zeros, positive diagonal (sign domain) and the index pairing of the inverse maps are decided too. "
+             "Floating-point accuracy of the round trips is not decided.",
+     "note": "Trusted: CPython ast; numpy's cos/sin/sqrt/arccos/dot/transpose/inv mean what they say; the closed forms in "
+             "refs/cell.py (self-checked each run: A'A=G, B'B=tau^2 G*, G G*=I, det A=V); the Cholesky uniqueness lemma."},
     {"id": "C04", "engine": "E0 tables + E6 table algebra",
      "technique": "static table extraction (ast) + exact group-axiom checking on the extracted literals",
      "text": "Complete for the property as stated: all 237 tabulated settings and all 244 names are extracted from the "
